@@ -1702,10 +1702,10 @@ class ShortcutNode(ListNode):
                 begin = list(term)[-1].value
             else:
                 begin = term.value
-            end = p.number_phrase.value
+            end = p[-1].value
         else:
             begin = self._get_last_value_node(p[0]).value
-            end = p.number_phrase.value
+            end = p[-1].value
         self._nodes = self._get_last_node(p)
         if begin is None:
             raise ValueError(f"Interpolates cannot follow a jump. Given: {list(p)}")
@@ -1729,7 +1729,8 @@ class ShortcutNode(ListNode):
         self._begin = begin
         self._end = end
         self._spacing = spacing
-        self.append(p.number_phrase)
+        # the closing number is the last symbol of every interpolate production
+        self.append(p[-1])
 
     def _can_consume_node(self, node, direction, last_edge_shortcut=False):
         """
